@@ -34,7 +34,8 @@ import (
 // every call, so k = counter - counter of a probe taken when the history
 // started.  Every generation counts, also those of calls that fail later.
 type oidCanon struct {
-	base int
+	base     int
+	dateBase int64 // dates are printed relative to this (family ttl), 0 = absolute
 }
 
 func newOidCanon() *oidCanon {
@@ -61,6 +62,8 @@ func (c *oidCanon) value(v interface{}) interface{} {
 	switch x := v.(type) {
 	case primitive.ObjectID:
 		return c.oid(x)
+	case primitive.DateTime:
+		return primitive.DateTime(int64(x) - c.dateBase)
 	case bson.D:
 		out := make(bson.D, len(x))
 		for i, e := range x {
@@ -618,6 +621,20 @@ func (a *apiRun) call(c *sx) (string, *lungo.Handle) {
 		}
 		s.EndSession(ctx)
 		return "OK", nil
+	case "expire":
+		txn, err := a.engine.Begin(ctx, true)
+		if err != nil {
+			return "ERR", nil
+		}
+		if err := txn.Expire(); err != nil {
+			a.engine.Abort(txn)
+			return "ERR", nil
+		}
+		if err := a.engine.Commit(txn); err != nil {
+			a.engine.Abort(txn)
+			return "ERR", nil
+		}
+		return "OK", nil
 	case "trim":
 		k, _ := strconv.Atoi(c.list[1].atom)
 		txn, err := a.engine.Begin(ctx, true)
@@ -636,6 +653,20 @@ func (a *apiRun) call(c *sx) (string, *lungo.Handle) {
 	return "BAD-CALL", nil
 }
 
+// shiftDates rewrites every (t ms) node of a parsed case to (t ms+delta).
+func shiftDates(n *sx, delta int64) {
+	if !n.isL {
+		return
+	}
+	if len(n.list) == 2 && !n.list[0].isL && n.list[0].atom == "t" && !n.list[1].isL {
+		n.list[1].atom = strconv.FormatInt(atoi64(n.list[1].atom)+delta, 10)
+		return
+	}
+	for _, c := range n.list {
+		shiftDates(c, delta)
+	}
+}
+
 func runAPI(c *sx) string {
 	opts := lungo.Options{Store: lungo.NewMemoryStore(), ExpireInterval: time.Hour}
 	client, engine, err := lungo.Open(nil, opts)
@@ -644,6 +675,11 @@ func runAPI(c *sx) string {
 	}
 	defer engine.Close()
 	a := &apiRun{client: client, engine: engine, cn: newOidCanon(), sessions: map[int64]lungo.ISession{}}
+	if c.list[0].atom == "apirel" {
+		// family ttl: every date of the case is an offset from the moment the history starts
+		a.cn.dateBase = time.Now().UnixMilli()
+		shiftDates(c, a.cn.dateBase)
+	}
 	var lines []string
 	for _, call := range c.list[2:] {
 		oplogBefore := engine.Catalog().Namespaces[lungo.Oplog].Documents.List
@@ -662,6 +698,12 @@ func runAPI(c *sx) string {
 			}
 		}
 		trimmed := len(oplogBefore) + len(evs) - len(oplogAfter)
+		if call.list[0].atom == "expire" {
+			// one Expire pass visits the namespaces in map order: group by namespace
+			sort.SliceStable(evs, func(i, j int) bool {
+				return enc(bsonkit.Get(evs[i], "ns")) < enc(bsonkit.Get(evs[j], "ns"))
+			})
+		}
 		ns := "-"
 		if h != nil {
 			ns = dumpNS(a.cn, cat, *h)
@@ -1098,7 +1140,84 @@ func genSpecdiff(r *rng) string {
 	return "(" + strings.Join(parts, " ") + ")"
 }
 
+// family `ttl` (C19): TTL indexes, documents with dates on both sides of the
+// cut-offs (as offsets from "now", at least 5 s away from any cut-off), other
+// types, arrays, missing fields; Transaction.Expire; then reads.
+func genTTL(r *rng) string {
+	const sec = int64(1000)
+	offsets := []int64{-3 * 3600 * sec, -7200*sec - 5*sec, -7200*sec + 5*sec, -3600*sec - 5*sec, -3600*sec + 5*sec, -60 * sec, -5 * sec, 5 * sec, 3600 * sec}
+	date := func() interface{} { return primitive.DateTime(pick(r, offsets)) }
+	val := func() interface{} {
+		switch r.intn(8) {
+		case 0:
+			return nil
+		case 1:
+			return int64(pick(r, offsets)) // a number that looks like a date
+		case 2:
+			return "x"
+		case 3:
+			return bson.A{date(), int32(1)}
+		case 4:
+			return bson.A{}
+		case 5:
+			return primitive.Timestamp{T: 1, I: 1}
+		default:
+			return date()
+		}
+	}
+	parts := []string{"apirel", "0"}
+	colls := []string{hx("db") + " " + hx("c"), hx("db") + " " + hx("d")}
+	nIdx := r.intn(3)
+	for i := 0; i < nIdx; i++ {
+		f := pick(r, []string{"a", "b"})
+		exp := pick(r, []int{0, 3600, 7200})
+		partial := "NIL"
+		if r.chance(1, 5) {
+			partial = enc(bson.D{{Key: "k", Value: int32(1)}})
+		}
+		parts = append(parts, "(createIndex 0 "+pick(r, colls)+" x "+enc(bson.D{{Key: f, Value: int32(1)}})+" "+tf(r.chance(1, 6))+" "+partial+" "+strconv.Itoa(exp)+")")
+	}
+	if r.chance(1, 3) {
+		parts = append(parts, "(createIndex 0 "+colls[0]+" x "+enc(bson.D{{Key: "k", Value: int32(1)}})+" F NIL NIL)")
+	}
+	nDocs := 2 + r.intn(8)
+	for i := 0; i < nDocs; i++ {
+		d := bson.D{{Key: "_id", Value: int32(i)}}
+		if r.chance(4, 5) {
+			d = append(d, bson.E{Key: "a", Value: val()})
+		}
+		if r.chance(1, 2) {
+			d = append(d, bson.E{Key: "b", Value: val()})
+		}
+		if r.chance(1, 2) {
+			d = append(d, bson.E{Key: "k", Value: int32(r.intn(2))})
+		}
+		parts = append(parts, "(insertOne 0 "+pick(r, colls)+" "+enc(d)+")")
+	}
+	parts = append(parts, "(expire 0)")
+	for _, c := range colls {
+		parts = append(parts, "(find 0 "+c+" (D) NIL NIL 0 0)")
+	}
+	if r.chance(1, 2) {
+		parts = append(parts, "(expire 0)")
+	}
+	return "(" + strings.Join(parts, " ") + ")"
+}
+
 func init() {
+	register(&family{
+		name: "ttl",
+		gen:  genTTL,
+		run:  runAPI,
+		classify: func(c *sx, obs string) ([]string, bool) {
+			n := strings.Count(obs, "x64656c657465") // "delete" events
+			k := "expired:none"
+			if n > 0 {
+				k = "expired:some"
+			}
+			return []string{k}, true
+		},
+	})
 	register(&family{
 		name: "specdiff",
 		gen:  genSpecdiff,
